@@ -108,6 +108,10 @@ def gen_obj_case(rng: Rng, max_ops: int = 30) -> dict:
             ops.append({"op": "setmax", "list": lst, "value": v})
             ops.append(_gen_edit(rng, lst, v, host, added[lst]))
         elif k < 11:
+            if rng.chance(1, 2):
+                # malformed stream: a request the handler must refuse (failure status) without touching the list
+                ops.append({"op": "bad", "list": lst, "pos": _positions(rng, cur_max[lst]),
+                            "what": rng.choice(["ip", "wildcard", "port-name", "port-range", "protocol", "position"])})
             ops.append({"op": "describe", "list": lst})
         elif k < 12:
             ops.append({"op": "show", "list": lst})
@@ -139,6 +143,16 @@ def gen_dev_case(rng: Rng, max_ops: int = 14) -> dict:
     addrs = [f"10.0.{p + 1}.2" for p in range(nports)] + [f"10.0.{p + 1}.1" for p in range(nports)] + ["10.0.1.77", "10.0.9.9"]
     ops: List[dict] = []
     inject = rng.chance(1, 2)
+    if kind == "firewall" and rng.chance(1, 2):
+        # open the four default-deny lists first (by assignment or by an explicit permit-all rule), so that pings get
+        # through unless a later rule or assignment stops them
+        for lst in ("intIn", "intOut", "dmzIn", "dmzOut"):
+            if rng.chance(2, 3):
+                ops.append({"op": "setimp", "list": lst, "value": "PERMIT"})
+            else:
+                ops.append({"op": "add", "list": lst, "surface": rng.choice(["api", "request", "action"]), "pos": 20,
+                            "rule": {"action": "PERMIT", "proto": None, "src_ip": None, "src_wc": None, "dst_ip": None, "dst_wc": None,
+                                     "src_port": None, "dst_port": None}})
     for _ in range(rng.range(4, max_ops)):
         k = rng.below(10)
         lst = rng.choice(lists)
@@ -423,6 +437,21 @@ def run_obj(case: dict) -> Tuple[List[str], List[str]]:
             lines.append(f"check {p['proto']} {p['src']} {p['dst']} {o(p['sport'])} {o(p['dport'])}")
             permitted, rule = acl.is_permitted(base.make_frame(p))
             out.append(f"{1 if permitted else 0} {who_of(acl, rule)}")
+        elif k == "bad":
+            req = ["add_rule", "DENY", "tcp", "10.0.0.1", "NONE", 80, "10.0.0.2", "NONE", 443, op["pos"]]
+            i, v = {"ip": (2, "300.1.1.1"), "wildcard": (6, "ALL"), "port-name": (4, "NOSUCHPORT"), "port-range": (7, 70000),
+                    "protocol": (1, "gre"), "position": (8, "first")}[op["what"]]
+            req[i + 1] = v  # indices of the handler's positional arguments (after the request name)
+            try:
+                if net is None:
+                    resp = acl.apply_request(req, {})
+                else:
+                    resp = net.apply_request(["node", "X"] + ([] if lst == "router" else list(FW_PORTDIR[lst])) + ["acl"] + req, {})
+                got = "raised" if resp.status == "failure" else f"status:{resp.status}"
+            except Exception as e:  # noqa: BLE001
+                got = f"exception:{type(e).__name__}"
+            lines += ["dump", "dump"]
+            out += [base.dump_impl(acl) if got == "raised" else f"malformed {op['what']} request answered {got}", base.dump_impl(acl)]
         elif k == "setimp":
             acl.implicit_action = ACLAction[op["value"]]
             lines.append(f"setimp {op['value']}")
